@@ -983,6 +983,26 @@ def close_mid_content_cases(rng, prefix="y"):
     return cases
 
 
+def deep_queue_cases(rng, prefix="k"):
+    """Many submissions waiting in ONE channel's queue when its single wake-up is handled (queue
+    bound 300): the queue's readiness is edge-triggered, so one handler run has to take them all."""
+    cases = []
+    for i, n in enumerate([63, 64, 65, 100, 128, 129, 201, 299]):
+        g = Gen(rng, chmax=2, bound=300, via_stream=0.0)
+        h1 = g.open_channel(1); g.bind_opened(h1, 1)
+        g.op("wscript w:1000000"); g.op("write")
+        for k in range(n):
+            g.op("send %s send %s" % (h1, hx(amqp.body(1, bytes([k % 251, (k >> 8) % 251, 7])))))
+        g.op("poll")
+        g.op("ev 1")
+        g.op("poll")
+        g.op("wscript w:1000000"); g.op("write"); g.op("dump")
+        g.op("poll")
+        g.finish()
+        cases.append(g.case("%s%d" % (prefix, n)))
+    return cases
+
+
 def listener_mid_content_cases(rng, prefix="m"):
     """A listener (return / confirm / blocked) is registered or replaced BETWEEN two frames of one
     content-bearing message (returned message, delivery, get answer) on that channel: the message
